@@ -1,4 +1,4 @@
-PROP = {"engines": [("list", "default", 2500), ("slist", "default", 2000), ("rbuf", "default", 600), ("spool", "default", 1200), ("dpool", "default", 1500), ("array", "default", 3000), ("deque", "default", 3000),
+PROP = {"engines": [("list", "default", 2500), ("slist", "default", 2000), ("rbuf", "default", 600), ("spool", "default", 1200), ("dpool", "default", 1500), ("array", "default", 3000), ("sized", "default", 2000), ("deque", "default", 3000),
                     ("pqueue", "default", 1000), ("hashtable", "default", 2500), ("tst", "default", 1000), ("treetable", "default", 1200)],
         "level_text": "Coq theorems per engine: from any state satisfying the invariant (hence after any history from the constructor, under any fault plan) no model operation "
                       "returns a Fault - the models carry explicit memory: checked slot indices, unwritten slots, node heaps, and a ledger in which a release of a non-live block or "
